@@ -10,7 +10,8 @@
 //	file <relpath> <t,t,~,…|->                  write a parquet file (row times in µs, ~ = NULL) -> ok
 //	rm <relpath>                                external removal (compaction replaced it)        -> ok
 //	now <unix-ns>                               set the virtual clock                            -> ok
-//	run <dry|http|sched> <db> <meas|*> <ret> <buf>   create a policy and execute it
+//	run <dry|http|sched|nocf|x:DC> <db> <meas|*> <ret> <buf>   create a policy and execute it (x:DC = HTTP body flags
+//	                                            dry_run/confirm, each t|f|a(bsent); dry=x:tf http=x:ft nocf=x:ff)
 //	                                            -> ok cutoff=<unix s> rows=<n> files=<n> meas=<a,b|-> | rejected
 //	ls                                          -> sorted list of stored files
 //	replace <relpath> <t,…>                     new content under the SAME path, by rename-over (restore / re-import) -> ok
@@ -265,6 +266,26 @@ func (e *env) http(method, path string, body any) (int, []byte) {
 	return resp.StatusCode, out
 }
 
+// flags: the HTTP execute body of a mode. 't' true, 'f' false, 'a' field absent.
+// dry = x:tf, http = x:ft, nocf = x:ff; x:<d><c> spells any other combination (x:tt = BOTH flags).
+func flags(mode string) (d, c byte) {
+	switch mode {
+	case "dry":
+		return 't', 'f'
+	case "http":
+		return 'f', 't'
+	case "nocf":
+		return 'f', 'f'
+	}
+	if len(mode) == 4 && strings.HasPrefix(mode, "x:") {
+		return mode[2], mode[3]
+	}
+	return 'f', 'f'
+}
+
+// isDryReq: the request carries dry_run=true — whatever else it carries, it must delete nothing.
+func isDryReq(mode string) bool { d, _ := flags(mode); return mode != "sched" && d == 't' }
+
 type runRes struct {
 	ok    bool
 	out   string
@@ -296,12 +317,21 @@ func (e *env) run(mode, db, meas string, ret, buf int) runRes {
 		bb, _ := json.Marshal(resp)
 		json.Unmarshal(bb, &r)
 	default:
-		st, b := e.http("POST", fmt.Sprintf("/api/v1/retention/%d/execute", pol.ID), map[string]any{"dry_run": mode == "dry", "confirm": mode == "http"})
+		body := map[string]any{}
+		if d, c := flags(mode); true {
+			if d != 'a' {
+				body["dry_run"] = d == 't'
+			}
+			if c != 'a' {
+				body["confirm"] = c == 't'
+			}
+		}
+		st, b := e.http("POST", fmt.Sprintf("/api/v1/retention/%d/execute", pol.ID), body)
 		if st != 200 {
 			return runRes{false, fmt.Sprintf("err=%d", st), 0, 0}
 		}
 		must(json.Unmarshal(b, &r))
-		if r.DryRun != (mode == "dry") {
+		if r.DryRun != isDryReq(mode) {
 			e.c.Fail("dry-run-flag-lost:handleExecute", "response dry_run flag differs from the request", "")
 		}
 	}
@@ -369,8 +399,8 @@ func (e *env) opRun(mode, db, meas string, ret, buf int, replay *strings.Builder
 		goneFiles++
 		goneRows += int64(len(ts))
 		delete(e.store, rel)
-		if mode == "dry" || !res.ok {
-			e.c.Fail("dry-run-deleted:handleExecute", fmt.Sprintf("%s disappeared during a dry run / failed run", rel), replay.String())
+		if isDryReq(mode) || !res.ok {
+			e.c.Fail("dry-run-deleted:handleExecute", fmt.Sprintf("%s disappeared although the request carried dry_run=true (or was refused): mode %s", rel, mode), replay.String())
 			continue
 		}
 		if !covered(rel, db, meas) {
@@ -386,7 +416,7 @@ func (e *env) opRun(mode, db, meas string, ret, buf int, replay *strings.Builder
 			}
 		}
 	}
-	if res.ok && mode == "dry" {
+	if res.ok && isDryReq(mode) {
 		var wantRows int64
 		wantFiles := 0
 		for rel, ts := range before {
@@ -399,7 +429,7 @@ func (e *env) opRun(mode, db, meas string, ret, buf int, replay *strings.Builder
 			e.c.Fail("dry-run-report-wrong:handleExecute", fmt.Sprintf("dry run reported rows=%d files=%d; the stored files of the covered measurements whose rows are all older than the cutoff hold rows=%d files=%d", res.rows, res.files, wantRows, wantFiles), replay.String())
 		}
 	}
-	if res.ok && mode != "dry" {
+	if res.ok && !isDryReq(mode) {
 		if res.rows != goneRows || res.files != goneFiles {
 			e.c.Fail("retention-count-mismatch:deleteOldFiles", fmt.Sprintf("reported rows=%d files=%d, actually removed rows=%d files=%d", res.rows, res.files, goneRows, goneFiles), replay.String())
 		}
@@ -677,6 +707,21 @@ func main() {
 			return res.files > 0 || res2.files > 0
 		})
 	}
+	// flag matrix of POST /:id/execute: dry_run × confirm × absent, on an expired file that a real run deletes
+	for _, fm := range []string{"x:tt", "x:ta", "x:tf", "x:ft", "x:at", "x:ff", "x:fa", "x:af", "x:aa"} {
+		runCase("edge:flags-"+fm[2:], func(replay *strings.Builder) bool {
+			now := base + 3
+			cutUs := (now - int64(37)*86400*1_000_000_000) / 1000
+			setNow(replay, now)
+			ts := []int64{cutUs - 5_000_000, cutUs - 9_000_000}
+			addFile(replay, e.partPath(g, D, "m", ts, cutUs, false), ts)
+			fr := []int64{cutUs + 5_000_000}
+			addFile(replay, e.partPath(g, D, "m", fr, cutUs, false), fr)
+			res := e.opRun(fm, D, "m", 30, 7, replay, nil)
+			res2 := e.opRun("http", D, "m", 30, 7, replay, nil)
+			return res.files > 0 || res2.files > 0
+		})
+	}
 	// policy validation gate
 	runCase("edge:policy-gate", func(replay *strings.Builder) bool {
 		setNow(replay, base)
@@ -735,7 +780,7 @@ func main() {
 				}
 				var d *runRes
 				if r.Chance(60) {
-					x := e.opRun("dry", db, meas, ret, buf, replay, nil)
+					x := e.opRun(vh.Pick(r, []string{"dry", "dry", "x:tt", "x:ta"}), db, meas, ret, buf, replay, nil)
 					d = &x
 					// the stored data changes between the dry run and the real run: no comparison of the two reports then
 					if r.Chance(20) {
